@@ -1,7 +1,7 @@
 // target: kiki/src/lib.rs
 // leaves: generate, get_grammar_hash (the public entry points, called as a whole) - BOUNDED STAND-IN for the parts of the pipeline that sit
 //         outside the verified text (trusted leaves, format! templates, std hash containers) and for changed code the verifier cannot ingest
-// props leaf_generate_total: C07        (no panic on any text of the family, in any layout, nor on its truncations)
+// props leaf_generate_total: C07        (no panic and a result within 120 s on any text of the family, in any layout, and on its truncations)
 // props leaf_generate_repeatable: C14   (six calls, two of them on fresh threads hence fresh RandomState keys, give the same result)
 // props leaf_generate_layout: C16       (same token sequence in 7 layouts: same emitted text but for the hash line, same error with positions carried along)
 // props leaf_hash_readback: C15         (get_grammar_hash against a direct reading of the statement; header of every emitted text reads back sha256(source))
@@ -259,18 +259,30 @@ mod __vx_leafcheck {
         for t in &hand {
             for (i, _) in t.char_indices() { texts.push(t[..i].to_string()); }
         }
-        let prev = std::panic::take_hook();
-        std::panic::set_hook(Box::new(|_| {}));
+        // one worker walks through the texts and reports after each; the test thread waits at most 120 s for the next report (each text is tiny: a
+        // generate call that does not come back within that time on any machine counts as a hang)
+        let (tx, rx) = std::sync::mpsc::channel::<(usize, bool)>();
+        let shared = std::sync::Arc::new(texts);
+        let worker_texts = shared.clone();
+        std::thread::spawn(move || {
+            for (i, t) in worker_texts.iter().enumerate() {
+                let ok = catch_unwind(AssertUnwindSafe(|| { let _ = generate(t); })).is_ok();
+                if tx.send((i, ok)).is_err() || !ok { return; }
+            }
+        });
         let mut n = 0usize;
-        let mut bad: Option<String> = None;
-        for t in &texts {
-            n += 1;
-            if catch_unwind(AssertUnwindSafe(|| { let _ = generate(t); })).is_err() { bad = Some(t.clone()); break; }
-        }
-        std::panic::set_hook(prev);
-        if let Some(t) = bad {
-            println!("LEAFCHECK-FAIL leaf=generate(total) input={} got=panic want=Ok or Err", brief(&t));
-            panic!("generate panicked");
+        while n < shared.len() {
+            match rx.recv_timeout(std::time::Duration::from_secs(120)) {
+                Ok((_, true)) => n += 1,
+                Ok((i, false)) => {
+                    println!("LEAFCHECK-FAIL leaf=generate(total) input={} got=panic want=Ok or Err", brief(&shared[i]));
+                    panic!("generate panicked");
+                }
+                Err(_) => {
+                    println!("LEAFCHECK-FAIL leaf=generate(total) input={} got=no result within 120 s want=Ok or Err within bounded time", brief(&shared[n]));
+                    panic!("generate hangs");
+                }
+            }
         }
         println!("LEAFCHECK leaf=generate(total) cases={}", n);
     }
